@@ -545,6 +545,7 @@ func (x *Explorer) unop(st *State, f *Frame, i *ssa.UnOp) Val {
 	case token.XOR:
 		return VInt{T: UF("bitnot", SInt, asInt(v))}
 	case token.ARROW:
+		x.timerFired(st, st.top(), i.X)
 		return x.recv(st, v, i.Type(), i.CommaOk)
 	}
 	x.fail("unop %s", i.Op)
@@ -1195,6 +1196,35 @@ func (x *Explorer) recv(st *State, ch Val, t types.Type, commaOk bool) Val {
 
 func chanName(ch Val) string { return "chan" }
 
+// timerFired: a receive from t.C of a *time.Timer consumes the timer - it will not fire again
+// until it is Reset (model field Timer.armed; a Ticker keeps firing and needs nothing).
+func (x *Explorer) timerFired(st *State, f *Frame, ch ssa.Value) {
+	for {
+		switch c := ch.(type) {
+		case *ssa.UnOp:
+			ch = c.X
+			continue
+		case *ssa.FieldAddr:
+			pt, ok := c.X.Type().Underlying().(*types.Pointer)
+			if !ok {
+				return
+			}
+			n := namedOf(pt.Elem())
+			if n == nil || n.Obj().Pkg() == nil || n.Obj().Pkg().Path() != "time" || n.Obj().Name() != "Timer" {
+				return
+			}
+			if p, ok := x.val(st, f, c.X).(VPtr); ok && p.Ref != nil {
+				name := "model:Timer.armed"
+				arr := st.heapGet(name, ArrSort(SBool))
+				st.heapSet(name, Store(arr, p.Ref, tFalse))
+			}
+			return
+		default:
+			return
+		}
+	}
+}
+
 func (x *Explorer) ghostCount(st *State, name string) {
 	c, _ := st.ghosts[name+".count"].(VInt)
 	if c.T == nil {
@@ -1279,6 +1309,7 @@ func (x *Explorer) doSelect(st *State, f *Frame, s *ssa.Select) {
 			if ct := asInt(x.val(cur, cf, s.States[idx].Chan)); ct.Op == "uf" && ct.Name == "ctxdone_ch" {
 				cur.assume(UF("ctxdone", SBool, ct.Args[0])) // <-ctx.Done() only fires on a finished context
 			}
+			x.timerFired(cur, cf, s.States[idx].Chan)
 			cur.trail = append(cur.trail, fmt.Sprintf("%s:select#%d=%s", cf.name, cf.block.Index, x.chanExprName(cf, s.States[idx].Chan)))
 			cur.ghosts["select.case"] = VInt{T: IntLit(int64(idx))}
 		} else {
